@@ -60,7 +60,7 @@ pub struct StepInfo {
     pub accepted: Accepted,
     /// number of DD/FD prefix bytes that were skipped as no-ops before the effective
     /// prefix (0 for an ordinary instruction; `DD FD 21` → 1)
-    pub ignored_prefixes: u8,
+    pub ignored_prefixes: u32,
     pub page: Page,
     pub opcode: u8,
     /// timing / behaviour variant of this execution: 0 = only/not-taken/last iteration,
@@ -559,9 +559,7 @@ impl RefZ80 {
             match op {
                 0xDD | 0xFD => {
                     if idx != Idx::Hl {
-                        if info.ignored_prefixes == u8::MAX {
-                            info.ambiguous = Some("prefix chain longer than 255");
-                        }
+                        // (a chain may be as long as memory allows: every overridden prefix is a 4-T no-op)
                         info.ignored_prefixes = info.ignored_prefixes.saturating_add(1);
                     }
                     idx = if op == 0xDD { Idx::Ix } else { Idx::Iy };
